@@ -93,6 +93,10 @@ TRUSTED = [
     'midpoints and square roots are rounded in the real code, exact / double-sqrt in the model); '
     'a differing outcome is a float tie if the real outcome is not stable under scaling the '
     'tolerance by 1 +- 1e-9',
+    'extract_rectangle: in tilted planes the exact squared distances of the model are rationals '
+    'with several hundred digits; the driver converts them to the nearest double before sqrt '
+    '(Wire.ratToFloat scales numerator and denominator beyond the double range; before that fix '
+    'such a distance evaluated to 0 and a rectangle-side midpoint counted as on an edge)',
 ]
 
 W = lbg.wnum
